@@ -1,11 +1,14 @@
 package props
 
 import (
+	"crypto/sha256"
+	"encoding/hex"
 	"fmt"
 	"math/big"
 	"testing"
 
 	sdk "github.com/cosmos/cosmos-sdk/types"
+	banktypes "github.com/cosmos/cosmos-sdk/x/bank/types"
 	ethcrypto "github.com/ethereum/go-ethereum/crypto"
 	"pgregory.net/rapid"
 
@@ -172,10 +175,41 @@ func runAttCaseObs(want string, obs func(h *sim.Hub, what string)) func(ci inter
 		var applied, rejected, conflictsApplied, powerChangeBetween, multiPerBlock, replays int
 		dirtySinceVote := false
 
+		// everything in the module's and the bank's store except what a mere vote may write (vote records, claim cursors)
+		beyondVotes := func() string {
+			hs := sha256.New()
+			for _, n := range []string{mtypes.StoreKey, banktypes.StoreKey} {
+				for _, kv := range h.Dump(n) {
+					if n == mtypes.StoreKey && len(kv.K) > 0 && (kv.K[0] == mtypes.ExternalEventVoteRecordKey || kv.K[0] == mtypes.LastEventNonceByValidatorKey) {
+						continue
+					}
+					hs.Write(kv.K)
+					hs.Write([]byte{0})
+					hs.Write(kv.V)
+					hs.Write([]byte{1})
+				}
+			}
+			return hex.EncodeToString(hs.Sum(nil))
+		}
 		endBlock := func() {
+			stateBefore := beyondVotes()
 			if err := h.End(); err != nil {
 				a.fail("C05", bridge.BlockerKey(err), "%v", err)
 				return
+			}
+			{
+				// an EndBlock in which no event reached quorum changes nothing beyond the votes
+				moved := false
+				for _, ch := range attChains {
+					if h.K.GetLastObservedEventNonce(h.Ctx(), mtypes.ChainID(ch)) != lastObs[ch] {
+						moved = true
+					}
+				}
+				if !moved && beyondVotes() != stateBefore {
+					if a.fail("C02", "state-changed-without-quorum", "EndBlock of height %d applied no event (no claim reached 66%%), yet module or bank state beyond vote records and claim cursors changed", height) {
+						return
+					}
+				}
 			}
 			if obs != nil {
 				obs(h, "end")
